@@ -137,7 +137,16 @@ class C20(Prop):
                     wc_path = src_path.replace(".json", "_with_counters.json")
                     has = os.path.exists(wc_path)
                     wc = [{"e": intern(e), "ph": str(e.get("ph", ""))} for e in read_any(wc_path)["traceEvents"]] if has else []
-                    obs["files"].append({"rank": r, "src": src, "hasWc": has, "wc": wc})
+                    obs["files"].append({"rank": r, "src": src, "hasWc": has, "wc": wc, "wcPath": wc_path, "disc": -1})
+                # history: rank discovery over the files the tool has just written -- each must still be found under its own rank
+                from hta.common.trace_file import create_rank_to_trace_dict
+                written = [f["wcPath"] for f in obs["files"] if f["hasWc"]]
+                if written:
+                    _ok, got = create_rank_to_trace_dict(list(written))
+                    for f in obs["files"]:
+                        f["disc"] = next((int(k_) for k_, v_ in got.items() if v_ == f["wcPath"]), -1)
+                for f in obs["files"]:
+                    f["wcPath"] = ""
             except Exception as ex:
                 obs["err"] = hta.exc_str(ex)
         return obs
@@ -180,9 +189,16 @@ class C20(Prop):
                 st = ta.t.symbol_table.get_sym_table()
                 names = cp.trace_df["name"]
                 obs["critRows"] = [{"id": int(i), "name": st[int(names.loc[i])]} for i in sorted({int(cp.node_list[n].ev_idx) for n in cp.critical_path_nodes})]
-                for only in (False, True):
-                    for alle in (False, True):
-                        outdir = os.path.join(d, f"ov_{int(only)}{int(alle)}")
+                # the documented option CRITICAL_PATH_SHOW_ZERO_WEIGHT_LAUNCH_EDGE may be changed between two overlays of one process
+                SHOW = "CRITICAL_PATH_SHOW_ZERO_WEIGHT_LAUNCH_EDGE"
+                for only, alle, show in ((False, False, None), (False, True, None), (False, True, "1"), (False, True, "0"),
+                                         (True, False, None), (True, True, None)):
+                    if True:
+                        if show is None:
+                            os.environ.pop(SHOW, None)
+                        else:
+                            os.environ[SHOW] = show
+                        outdir = os.path.join(d, f"ov_{int(only)}{int(alle)}{show or ''}")
                         path = ta.overlay_critical_path_analysis(r, cp, output_dir=outdir, only_show_critical_events=only, show_all_edges=alle)
                         ev = read_any(path)["traceEvents"]
                         nfl = 0
@@ -196,7 +212,8 @@ class C20(Prop):
                                         "keep": e.get("cat", "") in ("user_annotation", "python_function")})
                         if alle and not only:
                             es = [data["object"] for _, _, data in cp.edges(data=True)]
-                            es = [e for e in es if not (e.type.value == "critical_path_kernel_launch_delay" and e.weight == 0)]
+                            if show != "1":
+                                es = [e for e in es if not (e.type.value == "critical_path_kernel_launch_delay" and e.weight == 0)]
                         else:
                             es = list(cp.critical_path_edges_set)
                         edges = []
@@ -210,6 +227,8 @@ class C20(Prop):
                                           "critical": sorted({int(cp.node_list[n].ev_idx) for n in cp.critical_path_nodes})})
             except Exception as ex:
                 obs["err"] = hta.exc_str(ex)
+            finally:
+                os.environ.pop("CRITICAL_PATH_SHOW_ZERO_WEIGHT_LAUNCH_EDGE", None)
         return obs
 
     # ---- trace-file reader / writer / rank handling
